@@ -39,6 +39,12 @@ class TableM:
         # ---- geometry / labels (C16)
         self.row_h: dict[int, float] = {}
         self.col_w: dict[int, float] = {}
+        # stroke_seq value when a size was set / when a stroke last touched the row or column:
+        # a size is judged unless a stroke touched it AFTER it was set (that case is unspecified)
+        self.row_h_seq: dict[int, int] = {}
+        self.col_w_seq: dict[int, int] = {}
+        self.row_stroke_seq: dict[int, int] = {}
+        self.col_stroke_seq: dict[int, int] = {}
         self.caption = None
         self.caption_enabled = None
         self.name_enabled = None
